@@ -48,7 +48,7 @@ func c10Republish(a []string) string {
 		}
 		_ = ctx.FeedRtmpMsg(msg(9, 0, unhx("17000000000164001fffe100196764001fac2ca4014016ec0440000003004000000c03c60ca801000468ee3cb0")))
 		for i := 0; i < n; i++ {
-			_ = ctx.FeedRtmpMsg(msg(9, uint32(i*60), append([]byte{0x17, 1, 0, 0, 0, 0, 0, 0, 3, 0x65, 0x88, byte(i)})))
+			_ = ctx.FeedRtmpMsg(msg(9, uint32(i*60), []byte{0x17, 1, 0, 0, 0, 0, 0, 0, 3, 0x65, 0x88, byte(i)}))
 		}
 	}
 	c1, err := sm.AddCustomizePubSession(name)
